@@ -105,4 +105,18 @@ def moduleLogProbShape (sb : Shape) (heads : List Shape) : Option Shape :=
 /-- per-head entries (aggregate off): the module writes `dist.log_prob(out_tensors)`'s entries as they are -/
 def perHeadShapes (sb : Shape) (heads : List Shape) : List Shape := heads.map (headLp sb)
 
+/-! ## which keys a composite probabilistic module writes, which it advertises
+
+(`forward` with `return_log_prob=True`, default key names; recorded finding C14-composite-aggregate-per-head-entries) -/
+
+/-- entries written by `ProbabilisticTensorDictModule.forward` on a CompositeDistribution: the samples, the per-head
+`<sample>_log_prob` entries (copied before the aggregation when `composite_lp_aggregate()` is on) and, when it is on,
+the aggregated entry -/
+def writtenKeys (agg : Bool) (heads : List String) (lpKey : String) : List String :=
+  heads ++ heads.map (· ++ "_log_prob") ++ (if agg then [lpKey] else [])
+
+/-- `module.out_keys` -/
+def advertisedKeys (agg : Bool) (heads : List String) (lpKey : String) : List String :=
+  heads ++ (if agg then [lpKey] else heads.map (· ++ "_log_prob"))
+
 end TdVerif.C14.Prob
